@@ -355,6 +355,7 @@ def replay_fresh(pid, path):
 def run_check(spec, tier, seed, workers=None, runs=None, budget_s=None, out=sys.stdout):
     global _SPEC
     _SPEC = spec
+    os.environ['SIMPEX_TIER'] = tier          # generators go deeper (longer histories, larger bounds) in the thorough tier
     t0 = time.time()
     workers = workers or min(16, os.cpu_count() or 1)
     nruns = runs or spec.runs[tier]
